@@ -72,8 +72,8 @@ var (
 		`\*v = vbint\((\w+)\) ; return i, nil$`)
 	reVbFromOps = regexp.MustCompile(`if \w+&\d+ (==|!=|<=|>=|<|>) 0 \{ break \}`)
 	reRemaining = regexp.MustCompile(`^if f\.remainingLen (==|<=) (\d+) \{ return p, nil \} ; data := make\(\[\]byte, int\(f\.remainingLen\)\) ; ` +
-		`if _, err := io\.ReadFull\(r, data\); err != nil \{ return nil, fmt\.Errorf\( ?"[^"]*%w[^"]*", .*err,? ?\) \} ; ` +
-		`if err := p\.UnmarshalBinary\(data\); err != nil \{ return nil, fmt\.Errorf\( ?"[^"]*%w[^"]*", .*err,? ?\) \} ; return p, nil$`)
+		`if _, err := io\.ReadFull\(r, data\); err (?:!=|==) nil \{ return nil, fmt\.Errorf\( ?"[^"]*%w[^"]*", .*err,? ?\) \} ; ` +
+		`if err := p\.UnmarshalBinary\(data\); err (?:!=|==) nil \{ return nil, fmt\.Errorf\( ?"[^"]*%w[^"]*", .*err,? ?\) \} ; return p, nil$`)
 )
 
 func streamGen() (string, []string) {
